@@ -282,7 +282,7 @@ func ruleE2(c *Ctx) []Ob {
 				if f == nil || fnPkgPath(f) != pkgDefs {
 					continue
 				}
-				if releaseParam(f, "typePool") >= 0 {
+				if releaseParam(f, "typePool") >= 0 || f != fn && putsIntoPool(f, "typePool") {
 					s.bad(shortFn(fn)+":typePool:release", c.InstrPos(ins), "a defs.Type node is handed back to typePool by "+shortFn(fn)+" (through "+f.Name()+"): the nodes are shared by descriptors and by nested parses, and no ownership argument shows that this is the only release - a node released twice is handed out for two different types")
 				}
 			}
@@ -411,6 +411,32 @@ func e2GetSite(c *Ctx, s *obSink, fn *ssa.Function, get *ssa.Call) {
 }
 
 // releaseParam: f puts its k-th parameter back into the pool named pname on every path (a release helper); -1 otherwise.
+// putsIntoPool: f hands an object derived from one of its parameters (the receiver included) to the named pool, whatever
+// else it does (a release that also walks and releases what the object refers to).
+func putsIntoPool(f *ssa.Function, pname string) bool {
+	if f == nil || f.Blocks == nil {
+		return false
+	}
+	for _, b := range f.Blocks {
+		for _, ins := range b.Instrs {
+			ci, ok := ins.(ssa.CallInstruction)
+			if !ok || !isPoolCall(ci, "Put") || len(ci.Common().Args) != 2 || poolName(ci.Common().Args[0]) != pname {
+				continue
+			}
+			mi, ok := ci.Common().Args[1].(*ssa.MakeInterface)
+			if !ok {
+				continue
+			}
+			for _, prm := range f.Params {
+				if aliasSet(prm)[mi.X] {
+					return true
+				}
+			}
+		}
+	}
+	return false
+}
+
 func releaseParam(f *ssa.Function, pname string) int {
 	if f == nil || f.Blocks == nil {
 		return -1
